@@ -31,13 +31,18 @@ def _binary(ctx, pkg, name, race=False, shim=True):
 
 
 def run(ctx):
-    ctx.lean_obligations(["SV.Props.C10"], drivers=["svdriver_c10"])
+    ctx.lean_obligations(["SV.Props.C10", "SV.Props.C10x"], drivers=["svdriver_c10"])
     quick = ctx.tier == "quick"
     # sequential histories: model correspondence + oracle
     b, shim = _binary(ctx, "util/cacheutil", "h_cacheutil")
     if b:
         ctx.correspond(b, "TestVerifC10", "svdriver_c10", "c10",
                        env={"VERIF_N": 15000 if quick else 150000})
+        # real short-ttl caches, exported API only: whatever the tree does when a ttl runs out is what runs
+        # (values held across their expiry, asked for again, released, asked for again, ...); oracle sound
+        # for every timing
+        ctx.correspond(b, "TestVerifC10Timer", "svdriver_c10", "c10timer",
+                       env={"VERIF_N": 96 if quick else 1500}, timeout=900)
     # concurrent histories under the race detector (both tiers): atomicity of every operation
     br, _ = _binary(ctx, "util/cacheutil", "h_cacheutil_race", race=True, shim=shim)
     if br:
@@ -50,9 +55,11 @@ def run(ctx):
                        env={"VERIF_N": 150 if quick else 3000}, timeout=900)
     return ctx.finish(
         level="proof",
-        rule="(1) sequential: 13 scripted edge histories (re-add while an older value is held, double done, evicting "
-             "release by an old holder after re-add, capacity eviction while held, cap 0, missing keys, expiry of a "
-             "held value), then random histories of 5-64 ops over 3-5 keys on a fresh TTLCache or LRUCache (cap 0-3) "
+        rule="(1) sequential: 19 scripted edge histories (re-add while an older value is held, double done, evicting "
+             "release by an old holder after re-add, capacity eviction while held, cap 0, missing keys, a value HELD "
+             "across its expiry then Get/Add of the key, all holders done(false), Get - in 6 orders), TTL expiry "
+             "driven by firing the entry's own production timer (Timer.Reset(0), awaited with canary timers, no "
+             "fixed time limit) in all scripted and 2/3 of the random TTL histories; then random histories of 5-64 ops over 3-5 keys on a fresh TTLCache or LRUCache (cap 0-3) "
              "with per-history op weights, each drained at the end; a history is distinct by (cache kind, cap, "
              "sequence of op kinds/outcomes/callback positions); every op is compared impl-vs-model (returned value, "
              "token, added/ok, entry count, set of values finalised during the op) and the oracle tracks per value "
@@ -61,7 +68,10 @@ def run(ctx):
              "real timers firing under load, LRU cap 0-3), oracle sound under every interleaving while running and "
              "the full sequential predicate at every quiescent point and after the drain.  (3) use site: histories "
              "of Add/Get/Close on cache.NewDirectoryCache with 1-3 memory and fd entries (default and injected LRU "
-             "caches), every open reader re-read after every op",
+             "caches), every open reader re-read after every op.  (4) real-ttl stream (exported API only): 18 scripted + "
+             "96 random histories of add/get/ask(Get, on miss Add)/done/remove/wait-past-the-ttl on caches with a ttl "
+             "of 5-45 ms, run side by side; the oracle (handed-out value not finalised, callback at most once, never "
+             "while held, exactly once after the drain) is sound for every timing, so a late timer is never an alarm",
         assumptions=[
             "every schedule is a sequence of the atomic operations the theorems quantify over: observed each run by "
             "the concurrent harness on a -race build (data race or interleaving-oracle failure = violation), not "
